@@ -179,6 +179,14 @@ def run(ctx):
         rv = [v for v in fut.result() if all(a["nest"] in KNOWN_NESTS for a in v["pa"] + v["ra"])]
         groups.append((fam, [v for v in rv if not xb(v)]))
         groups.append((fam, [v for v in rv if xb(v)]))
+    # two-attribute methods assembled from the enumerated exchanges (TLC computes their oracle and mechanism): the bodies of
+    # half of them are a proper part of the (every other time: named) payload / result type
+    npairs = int(os.environ.get("VERIF_PAIRS") or (160 if quick else 3000))
+    for fam, npa, nra in (("req", 2, 1), ("res", 1, 2)):
+        pv2 = osx.gen_xcases(ctx, fam, osx.pair_cases(gens[fam].result(), npairs, ctx.seed, fam), npa, nra)
+        pv2 = [v for v in pv2 if all(a["nest"] in KNOWN_NESTS for a in v["pa"] + v["ra"])]
+        groups.append((fam, [v for v in pv2 if not xb(v)]))
+        groups.append((fam, [v for v in pv2 if xb(v)]))
     # schema.dedup_ignores_validations on purpose: two methods whose bodies differ in their validations only, in one design
     twins = [{"kind": "int", "loc": "body", "mode": "required", "rule": r, "nest": "direct"} for r in ("min", "none")]
     groups.append(("req", osx.gen_vectors(ctx, "req", label="Gen exchanges req (dedup twins)", workers=1, shapes=twins), {"together": True}))
@@ -189,6 +197,7 @@ def run(ctx):
         judge(ctx, fam, [c for c in cases if c["tag"] == fam], verd, K, nontrivial, pending, traces)
     for i, f in sorted(pl.failed.items()):
         ctx.notes.append("design d%d not usable: %s" % (i, str(f)[:200]))
+        ctx.log("design d%d not usable: %s" % (i, str(f)[:600]))
     # name the disagreements
     table = osx.xevaluate(ctx, [c["v"] for _, _, c, _, _ in pending], devsets(K))
     unexplained = []
